@@ -13,6 +13,7 @@ mod tree;
 mod c01;
 mod c04;
 mod c05;
+mod c06;
 mod c10;
 mod c14;
 mod c17;
@@ -47,7 +48,7 @@ pub struct Prop {
 }
 
 fn props() -> Vec<Prop> {
-    vec![c01::PROP, c01::PROP2, c01::PROP3, c04::PROP, c05::PROP, c10::PROP, c14::PROP, c17::PROP, c15::PROP]
+    vec![c01::PROP, c01::PROP2, c01::PROP3, c04::PROP, c05::PROP, c06::PROP, c06::PROP7, c06::PROP8, c06::PROP13, c10::PROP, c14::PROP, c17::PROP, c15::PROP]
 }
 
 /// observation used when the implementation panicked
